@@ -127,7 +127,7 @@ def back_map(op):
 
 
 _PLAIN = re.compile(r"^[A-Za-z0-9_$#@*]+$")
-_QUAL = re.compile(r"[A-Za-z_][A-Za-z0-9_$#]*\.(?=[A-Za-z_*])")
+_QUAL = re.compile(r"(?:\"[^\"]+\"|`[^`]+`|[A-Za-z_][A-Za-z0-9_$#]*)\.(?=[A-Za-z_*\"`])")
 
 
 def mask_expr_name(e, tables):
@@ -223,7 +223,9 @@ def subquery_capture_explains(stmt, op, s0, s1):
     a, b = {tuple(p) for p in s0["pairs"]}, {tuple(p) for p in s1["pairs"]}
     removed, added = a - b, b - a
     if not removed:
-        return False
+        # nothing went away, sources were ADDED: the captured reference now also reaches what the relation carrying the alias reads
+        # (a derived table over a UNION); same targets, the old pairs all kept
+        return bool(added) and {t for _, t in added} <= {t for _, t in a}
     for src, _ in removed:
         parts = src.split(".")
         if len(parts) != 3 or parts[1] not in news:
@@ -342,9 +344,11 @@ def verdict_class(a, op):
     if op["op"] == "rename":
         if not (a["ok"] or (a["loose"] and a["d7"])):
             return None
-        if not a["ok"] and exposed_clash(a["stmt"]):
-            return None
     elif not a["ok"]:
+        return None
+    if exposed_clash(a["stmt"]):
+        # the text after the operation exposes one name twice in a FROM clause (e.g. the same new alias added to two tables that
+        # share a bare name): clashing names, outside the quantifier
         return None
     return "d7" if (a.get("d7_shape") or a.get("d7")) else ("fresh" if op["op"] == "rename" else "ok")
 
